@@ -65,6 +65,9 @@ SKELETON = [
     (None, "end enum", 1),
     ("cm1", "integer :: cm1", 1),
     ("cb", "common /cb/ cm1", 1),
+    ("cm2", "integer :: cm2, cm3, cm4", 1),
+    ("cbb", "common /cbb/ cm2", 1),
+    ("cb34", "common /cc1/ cm3 /cc2/ cm4", 1),
     (None, "contains", 0),
     ("s1", "subroutine s1(a1)", 1),
     ("a1", "integer, intent(in) :: a1", 2),
@@ -107,14 +110,15 @@ WHERE = {
     "gi": [("interface", "gi")], "gimp": [("modprocref", "s1")], "ai": [("proc", "ai"), ("absinterface", "ai")],
     "aa": [("variable", "aa")], "ei": [("proc", "ei"), ("interface", "ei")], "ex": [("variable", "ex")],
     "eir": [("variable", "ei")], "en": [("enum", "#0")], "e1": [("enumerator", "e1")], "e2": [("enumerator", "e2")],
-    "cm1": [("variable", "cm1")], "cb": [("common", "cb")], "s1": [("proc", "s1")], "a1": [("variable", "a1")],
+    "cm1": [("variable", "cm1")], "cb": [("common", "cb")], "cm2": [("variable", "cm2"), ("variable", "cm3"), ("variable", "cm4")],
+    "cbb": [("common", "cbb")], "cb34": [("common", "cc1"), ("common", "cc2")], "s1": [("proc", "s1")], "a1": [("variable", "a1")],
     "nl": [("namelist", "nl")], "loc1": [("variable", "loc1")], "fn1": [("proc", "fn1")], "a2": [("variable", "a2")],
     "r1": [("variable", "r1")], "in1": [("proc", "in1")], "pr": [("program", "pr")], "pv": [("variable", "pv")],
     "bd": [("blockdata", "bd")], "bdv": [("variable", "bdv")], "bdc": [("common", "cb2")], "xs": [("proc", "xs")],
     "xa": [("variable", "xa")],
 }
 # statements that declare several names / where FORD documents only some: "at least one, nothing outside"
-LENIENT_ANY = {"b23", "v23", "ai", "ei"}
+LENIENT_ANY = {"b23", "v23", "ai", "ei", "cm2", "cb34"}
 
 STYLES = ["after", "pre", "alt-after", "alt-pre"]
 MARKSETS = [
@@ -192,10 +196,18 @@ def collect_docs(project):
     return docs
 
 
-def check_attachment(st: Stats, styles, marks, inline, seps, stratum, feats, gaps=None):
+def check_attachment(st: Stats, styles, marks, inline, seps, stratum, feats, gaps=None, include=False):
     src = render(styles, marks, inline, seps, gaps)
     opts = dict(display=["public", "private", "protected"], proc_internals=True, **marks)
-    r = fordrun.build_fast({"src/m.f90": src}, opts)
+    files = {"src/m.f90": src}
+    if include:
+        # the specification part of the module (with all its comments) is moved into an include file
+        L = src.rstrip("\n").split("\n")
+        a = L.index("  implicit none") + 1
+        b = L.index("contains")
+        files = {"src/m.f90": "\n".join(L[:a] + ["  include 'spec.inc'"] + L[b:]) + "\n", "src/spec.inc": "\n".join(L[a:b]) + "\n"}
+        src = "\n".join(f"----- {k}\n{v}" for k, v in files.items())
+    r = fordrun.build_fast(files, opts)
     st.evaluations += 1
     st.transitions += 1
     inp = dict(styles=styles, marks=marks, inline=sorted(inline), seps=seps, gaps=gaps or {}, source=src)
@@ -245,6 +257,7 @@ def attach_cases(tier):
     for s in STYLES:
         for mi in range(len(MARKSETS)):
             yield ("all", s, mi, None, None, None, None)
+            yield ("all-include", s, mi, None, None, None, None)
     marksets = range(len(MARKSETS)) if tier == "thorough" else (0,)
     seps = [None, "blank", "comment", "both"]
     for (a, b) in adj:
@@ -271,6 +284,10 @@ def run_attach(st: Stats, case):
         _, s, mi, *_ = case
         styles = {k: s for k in KEYS}
         check_attachment(st, styles, MARKSETS[mi], (), {}, f"attach/all/{s}", dict(space="all", style=s, markset=mi, pair="", sep="", inline=False))
+    elif case[0] == "all-include":
+        _, s, mi, *_ = case
+        styles = {k: s for k in KEYS}
+        check_attachment(st, styles, MARKSETS[mi], (), {}, f"attach/all-include/{s}", dict(space="all-include", style=s, markset=mi, pair="", sep="", inline=False), include=True)
     elif case[0] == "gap":
         _, k, s, mi, g, inl, _ = case
         styles = {x: "after" for x in KEYS}
@@ -646,7 +663,7 @@ def replay(path):
         run_meta(st, (i["entity"], tuple(next(m for m in META_KEYS if m[0] == i["meta"][0])), i["colon_text"]))
         print(i["source"])
     else:
-        check_attachment(st, i["styles"], i["marks"], tuple(i["inline"]), i["seps"], rec["site"], rec["features"], gaps=i.get("gaps"))
+        check_attachment(st, i["styles"], i["marks"], tuple(i["inline"]), i["seps"], rec["site"], rec["features"], gaps=i.get("gaps"), include="all-include" in rec["site"])
         print(i["source"])
     for v in st.violations:
         print("REPRODUCED", v["clause"], v["features"].get("entity"), "got", v["observed"], "want", v["expected"])
